@@ -35,7 +35,7 @@ FAMILY = "bounds"
 CORR = "Bounds"
 FAMNUM = 9
 ORACLES = {"prop_ok": 0, "tie_ok": 1, "mc_ok": 2, "mc_ok5": 3}
-OPNAMES = {1: "hll_fn", 2: "cpc_fn", 3: "theta_fn", 4: "hll_sketch", 5: "cpc_sketch", 6: "theta_sketch", 7: "hll_parts", 8: "monte_carlo"}
+OPNAMES = {1: "hll_fn", 2: "cpc_fn", 3: "theta_fn", 4: "hll_sketch", 5: "cpc_sketch", 6: "theta_sketch", 7: "hll_parts", 8: "monte_carlo", 9: "hll_union"}
 
 
 def fbits(x):
@@ -213,6 +213,10 @@ def gen(rng, tier, n=None, focus=None):
             lgk = rng.randint(4, lgmax)
             for _ in range(6):
                 ops.append((4, [lgk, rng.randrange(3), sizes(rng, lgk, tier), seed + len(ops), rng.randrange(4)]))
+        elif r == 4 and i % 14 == 4:
+            lgk = rng.randint(4, lgmax)
+            for _ in range(6):
+                ops.append((9, [lgk, rng.randrange(3), sizes(rng, lgk, tier), seed + len(ops)]))
         elif r == 4:
             lgk = rng.randint(4, lgmax)
             for _ in range(6):
